@@ -3,8 +3,9 @@
 `destroy_race(rep, tier, seed, counter)` runs the directed family `destroy-race` of harness/conc.go (real goroutines, no
 virtual clock, race build): per iteration a session with data, sometimes a user and up to two replaced IDs in their grace
 period is ended by one goroutine (handler Destroy; Start with a changed User-Agent; Start after SessionExpiry) while
-several goroutines present its current and replaced IDs to Start. The store is slow (`storedelay`: LoadSession and
-DeleteSession wait a random few hundred microseconds before they touch the records) so that windows between the cache
+several goroutines present its current and replaced IDs to Start and, in half of the iterations, one goroutine calls
+PurgeSessions twice. The store is slow (`storedelay`: LoadSession, SaveSession and DeleteSession wait a random few
+hundred microseconds before they touch the records, LoadSession again before it returns) so that windows between the cache
 and the store operation of one package call become wide enough to be hit. After the ending call and all concurrent
 requests have returned, the harness checks sequentially that no ID that ever belonged to the session yields a session,
 that the cache holds no full object and the store no full record of it; it logs `resurrect ...` otherwise.
@@ -31,7 +32,7 @@ def scripts(tier, seed):
     return out
 
 
-def destroy_race(rep, tier, seed, counter):
+def destroy_race(rep, tier, seed, counter, prop="C07"):
     """returns the number of violations reported"""
     hbin = env.build_harness("race")  # BuildError is the caller's business
     scen = scripts(tier, seed)
@@ -58,7 +59,7 @@ def destroy_race(rep, tier, seed, counter):
         counter[0] += 1
         what = "an ended session was obtainable after the ending call had returned (%s; iteration %s of scenario %s, %d of %d scenarios affected): %s" % (
             first[2], first[1], r.name, len(bad), len(results), first[3])
-        p = write_replay("C07", counter[0], ["C07 violated under concurrency: " + what,
+        p = write_replay(prop, counter[0], [prop + " violated under concurrency: " + what,
                                              "harness -mode conc (race build): the script below, then the harness's resurrect lines",
                                              "replay: /verif/.cache/<tree>/h_race -mode conc -script <this file> -out <transcript>; grep ^resurrect <transcript>"],
                          r.script + "".join("# " + l + "\n" for l in r.resurrect[:40]), ext="concscript")
